@@ -166,6 +166,9 @@ func gen(tier string, rng *h.Rng, emit func(string)) {
 			emit("hr " + strings.Join(append(append(pre, "op"), tail...), ","))
 		})
 	}
+	for n := 1; n <= 3; n++ {
+		emit(fmt.Sprintf("race %d", n))
+	}
 	// 2. marshalling
 	for k := 0; k < 64; k++ {
 		emit("sig " + sigBoundary(rng, k))
